@@ -29,6 +29,9 @@ type Package struct {
 	Files [][]int  `json:"files"` // indices into Decls per file
 	Feat  []string `json:"features"`
 	Refs  []Ref    `json:"refs"` // one read-reference statement per referable object
+	// LineDir: every file carries a "//line zz_<name>:1000" comment after its first declaration, so that the
+	// rest of the file is displayed under another file name and numbering (set by the caller; default off)
+	LineDir bool `json:"line_directive,omitempty"`
 }
 
 // Ref is a statement that reads (uses) one package-level object or member, and
@@ -42,7 +45,10 @@ type Ref struct {
 func (p *Package) Source(i int) string {
 	var sb strings.Builder
 	sb.WriteString("package " + p.Name + "\n\n")
-	for _, d := range p.Files[i] {
+	for k, d := range p.Files[i] {
+		if p.LineDir && k == 1 {
+			sb.WriteString("//line zz_" + p.FileName(i) + ":1000\n\n")
+		}
 		sb.WriteString(p.Decls[d].Text)
 		sb.WriteString("\n\n")
 	}
@@ -100,7 +106,9 @@ type gen struct {
 	funcs   []string
 	vars    []string
 	consts  []string
-	nameds  []string // named int types with method mB
+	nameds  []string        // named int types with method mB
+	anon    []string        // functions with unnamed parameters: name(int, string)
+	strSig  map[string]bool // structs/interfaces whose mC takes a string instead of an int
 	generic bool
 	feat    map[string]bool
 	noCalls bool // inside a package-level variable initializer: avoid initialization cycles
@@ -114,6 +122,53 @@ func (g *gen) chance(label string, num, den int) bool {
 var methodSigs = map[string]string{"mA": "()", "mB": "() int", "mC": "(x int)"}
 var methodBodies = map[string]string{"mA": "{}", "mB": "{ return 1 }", "mC": "{ _ = x }"}
 var methodCall = map[string]string{"mA": "mA()", "mB": "mB()", "mC": "mC(1)"}
+
+// Some structs and interfaces declare mC(x string) instead of mC(x int): two
+// interfaces may then list methods of the same names with different signatures.
+func sigOf(m string, str bool) string {
+	if m == "mC" && str {
+		return "(x string)"
+	}
+	return methodSigs[m]
+}
+
+func callOf(m string, str bool) string {
+	if m == "mC" && str {
+		return "mC(\"\")"
+	}
+	return methodCall[m]
+}
+
+// cStr reports whether the mC in the method set of s is the string variant.
+func (g *gen) cStr(s structT) bool {
+	for _, m := range s.methods {
+		if m.name == "mC" {
+			return g.strSig[s.name]
+		}
+	}
+	if s.embed != "" {
+		for _, e := range g.structs {
+			if e.name == s.embed {
+				return g.cStr(e)
+			}
+		}
+	}
+	return false
+}
+
+// satisfies: the method set of *s has the interface's methods with the interface's signatures.
+func (g *gen) satisfies(s structT, methods []string, iname string) bool {
+	ms := g.methodSet(s, true)
+	for _, m := range methods {
+		if !ms[m] {
+			return false
+		}
+		if m == "mC" && g.cStr(s) != g.strSig[iname] {
+			return false
+		}
+	}
+	return true
+}
 
 // allMethods returns the methods in the method set of s (value or pointer form), including promoted ones.
 func (g *gen) methodSet(s structT, viaPtr bool) map[string]bool {
@@ -162,7 +217,7 @@ func (g *gen) fieldsOf(s structT) []string {
 // stmt produces one statement that references package-level objects.
 func (g *gen) stmt() string {
 	for try := 0; try < 8; try++ {
-		k := g.pick("ref", 24)
+		k := g.pick("ref", 28)
 		if g.noCalls {
 			k = []int{4, 5, 6, 7, 8, 14}[g.pick("refinit", 6)]
 		}
@@ -241,7 +296,7 @@ func (g *gen) stmt() string {
 					switch g.pick("mform", 3) {
 					case 0:
 						g.feat["method-call"] = true
-						return "{\n\t\tvar x " + s.name + "\n\t\tx." + methodCall[m] + "\n\t}"
+						return "{\n\t\tvar x " + s.name + "\n\t\tx." + callOf(m, g.cStr(s)) + "\n\t}"
 					case 1:
 						g.feat["method-value"] = true
 						return "{\n\t\tvar x " + s.name + "\n\t\tf := x." + m + "\n\t\t_ = f\n\t}"
@@ -259,19 +314,12 @@ func (g *gen) stmt() string {
 					if s.embed != "" && s.embedP {
 						continue
 					}
-					ms := g.methodSet(s, true)
-					ok := true
-					for _, m := range i.methods {
-						if !ms[m] {
-							ok = false
-						}
-					}
-					if ok {
+					if g.satisfies(s, i.methods, i.name) {
 						g.feat["iface-satisfaction"] = true
 						call := ""
 						if len(i.methods) > 0 && g.chance("icall", 1, 2) {
 							g.feat["iface-call"] = true
-							call = "\n\t\ti." + methodCall[i.methods[g.pick("im", len(i.methods))]]
+							call = "\n\t\ti." + callOf(i.methods[g.pick("im", len(i.methods))], g.strSig[i.name])
 						}
 						return "{\n\t\tvar i " + i.name + " = &" + s.name + "{}" + call + "\n\t\t_ = i\n\t}"
 					}
@@ -321,14 +369,7 @@ func (g *gen) stmt() string {
 					if s.embed != "" && s.embedP {
 						continue
 					}
-					ms := g.methodSet(s, true)
-					ok := true
-					for _, m := range i.methods {
-						if !ms[m] {
-							ok = false
-						}
-					}
-					if ok {
+					if g.satisfies(s, i.methods, i.name) {
 						cands = append(cands, s)
 					}
 				}
@@ -347,7 +388,7 @@ func (g *gen) stmt() string {
 					}
 					call := ""
 					if len(i.methods) > 0 && g.chance("icall", 1, 2) {
-						call = "\n\t\ti." + methodCall[i.methods[g.pick("im", len(i.methods))]]
+						call = "\n\t\ti." + callOf(i.methods[g.pick("im", len(i.methods))], g.strSig[i.name])
 					}
 					return "{\n\t\ttype loc struct {\n\t\t\t" + emb + "\n" + extra + "\t\t}\n\t\tvar i " + i.name + " = " + lit + call + "\n\t\t_ = i\n\t}"
 				}
@@ -367,6 +408,23 @@ func (g *gen) stmt() string {
 				default:
 					return "{\n\t\ttype loc struct {\n\t\t\tinner " + s.name + "\n\t\t\tn     int\n\t\t}\n\t\t_ = loc{n: 1}\n\t}"
 				}
+			}
+		case 24, 25:
+			// functions whose parameters have no names (their objects are not in types.Info.Defs)
+			if len(g.anon) > 0 {
+				g.feat["unnamed-params"] = true
+				return g.anon[g.pick("anon", len(g.anon))] + "(1, \"\")"
+			}
+		case 26, 27:
+			// type switch with a bound variable (one implicit object per clause)
+			if len(g.structs) > 0 {
+				s := g.structs[g.pick("st", len(g.structs))]
+				g.feat["type-switch"] = true
+				other := "int"
+				if len(g.nameds) > 0 {
+					other = g.nameds[g.pick("nm", len(g.nameds))]
+				}
+				return "{\n\t\tvar a any = &" + s.name + "{}\n\t\tswitch v := a.(type) {\n\t\tcase *" + s.name + ":\n\t\t\t_ = v\n\t\tcase " + other + ":\n\t\t\t_ = v\n\t\tdefault:\n\t\t\t_ = v\n\t\t}\n\t}"
 			}
 		case 18:
 			if len(g.funcs) > 0 {
@@ -405,7 +463,7 @@ func sortedKeys(m map[string]bool) []string {
 
 // Generate draws a package. pkgName "main" adds func main.
 func Generate(t *rapid.T, pkgName string) *Package {
-	g := &gen{t: t, feat: map[string]bool{}}
+	g := &gen{t: t, feat: map[string]bool{}, strSig: map[string]bool{}}
 	p := &Package{Name: pkgName}
 	add := func(kind, text string) { p.Decls = append(p.Decls, Decl{Text: text, Kind: kind}) }
 
@@ -433,6 +491,7 @@ func Generate(t *rapid.T, pkgName string) *Package {
 				s.methods = append(s.methods, method{m, g.chance("ptrrecv", 1, 2)})
 			}
 		}
+		g.strSig[s.name] = g.chance("strsig", 1, 3)
 		g.structs = append(g.structs, s)
 	}
 	ni := g.pick("nifaces", 3)
@@ -447,6 +506,13 @@ func Generate(t *rapid.T, pkgName string) *Package {
 			name    string
 			methods []string
 		}{fmt.Sprintf("i%d", i), ms})
+		g.strSig[fmt.Sprintf("i%d", i)] = g.chance("strsig", 1, 3)
+		if g.strSig[fmt.Sprintf("i%d", i)] {
+			g.feat["method-same-name-other-signature"] = true
+		}
+	}
+	for i, n := 0, g.pick("nanon", 4); i < n; i++ {
+		g.anon = append(g.anon, fmt.Sprintf("u%d", i))
 	}
 	nfn := 2 + g.pick("nfuncs", 6)
 	for i := 0; i < nfn; i++ {
@@ -510,14 +576,14 @@ func Generate(t *rapid.T, pkgName string) *Package {
 					body += "}"
 				}
 			}
-			add("method", fmt.Sprintf("func (%s) %s%s %s", recv, m.name, methodSigs[m.name], body))
+			add("method", fmt.Sprintf("func (%s) %s%s %s", recv, m.name, sigOf(m.name, g.strSig[s.name]), body))
 		}
 	}
 	for _, i := range g.ifaces {
 		var sb strings.Builder
 		fmt.Fprintf(&sb, "type %s interface {\n", i.name)
 		for _, m := range i.methods {
-			fmt.Fprintf(&sb, "\t%s%s\n", m, methodSigs[m])
+			fmt.Fprintf(&sb, "\t%s%s\n", m, sigOf(m, g.strSig[i.name]))
 		}
 		sb.WriteString("}")
 		add("type", sb.String())
@@ -531,6 +597,9 @@ func Generate(t *rapid.T, pkgName string) *Package {
 		add("type", "type gbox[T any] struct{ v T }")
 		add("method", "func (b gbox[T]) get() T { return b.v }")
 		add("method", "func (b *gbox[T]) set(v T) { b.v = v }")
+	}
+	for _, f := range g.anon {
+		add("func", fmt.Sprintf("func %s(int, string) %s", f, g.body(g.pick("nstmts", 3))))
 	}
 	for _, f := range g.funcs {
 		add("func", fmt.Sprintf("func %s() %s", f, g.body(g.pick("nstmts", 4))))
@@ -595,6 +664,9 @@ func Generate(t *rapid.T, pkgName string) *Package {
 	for _, f := range g.funcs {
 		p.Refs = append(p.Refs, Ref{"func " + f, f + "()"})
 	}
+	for _, f := range g.anon {
+		p.Refs = append(p.Refs, Ref{"func " + f, f + "(2, \"r\")"})
+	}
 	for _, v := range g.vars {
 		p.Refs = append(p.Refs, Ref{"var " + v, "_ = " + v})
 	}
@@ -611,7 +683,7 @@ func Generate(t *rapid.T, pkgName string) *Package {
 			if m.ptr {
 				name = "func (*" + s.name + ")." + m.name
 			}
-			p.Refs = append(p.Refs, Ref{name, "{\n\t\tvar x " + s.name + "\n\t\tx." + methodCall[m.name] + "\n\t}"})
+			p.Refs = append(p.Refs, Ref{name, "{\n\t\tvar x " + s.name + "\n\t\tx." + callOf(m.name, g.strSig[s.name]) + "\n\t}"})
 		}
 	}
 	for _, i := range g.ifaces {
